@@ -142,6 +142,9 @@ STRS = [np.str_('a'), np.str_('b'), np.str_('ab'), 'a', 'b', 'c', 'ab', '']
 DATES_NAT = DATES + NATS + [pd.NaT]            # laws only (the model has NaT at scalar level only)
 
 
+ARG_COLS = ['self', 'by', 'byval', 'key', 'keys', 'a']     # column names that are also parameter names of dictable.sort / sorted (w2-F2)
+
+
 def rand_scalar(rng, nan_rate=0.12, pool=None):
     if rng.random() < nan_rate:
         return float('nan') if rng.random() < 0.7 else np.nan
@@ -284,6 +287,24 @@ def generate(rng, tier):
         k = rng.choice([2, 2, 3, 4, 7])
         rows = [[rng.choice(vals) for _ in range(w)] for _ in range(k)]
         yield dict(tag='dictable.sort-byval', lines=['(cmp byvalidx %s %s)' % (enc(orders), enc(rows))])
+    # (w2-F2) the value-order form on key columns NAMED like the parameters of sort itself: d.sort(self = [3, 1]), by = .., byval = ..
+    for _ in range(40 if tier == 'quick' else 600):
+        w = rng.choice([1, 1, 2])
+        names = rng.sample(ARG_COLS, w)
+        if 'self' not in names and rng.random() < 0.5:
+            names[0] = 'self'
+        orders = [rng.sample(vals, rng.choice([1, 2, 3, 5])) for _ in range(w)]
+        k = rng.choice([2, 3, 4, 7])
+        rows = [[rng.choice(vals) for _ in range(w)] for _ in range(k)]
+        yield dict(tag='dictable.sort-byval-argname', lines=['(cmp byvalidx %s %s %s)' % (enc(orders), enc(rows), enc(names))])
+    # ... and the key form / function form on such columns (sorttable gathers every column)
+    for _ in range(40 if tier == 'quick' else 600):
+        k = rng.choice([1, 2, 3, 5])
+        pool = [rand_scalar(rng) for _ in range(rng.choice([1, 2, 3]))]
+        names = rng.sample(ARG_COLS, rng.choice([1, 2, 3]))
+        t = {c: [rng.choice(pool) for _ in range(k)] for c in names}
+        by = rng.sample(names, min(len(names), rng.choice([1, 2])))
+        yield dict(tag='dictable.sort-table-argname', lines=['(cmp sorttable %s %s)' % (enc_tbl(t), enc(by))])
 
 
 def enc_tbl(t):
@@ -373,9 +394,12 @@ def run_line(state, sx):
     if op == 'byvalidx':
         orders, rows = dec(args[0]), dec(args[1])
         w = len(orders)
-        cols = {'k%d' % j: [r[j] for r in rows] for j in range(w)}
+        names = dec(args[2]) if len(args) > 2 else ['k%d' % j for j in range(w)]
+        if len(names) != w or len(set(names)) != w or 'i' in names or not all(isinstance(c, str) for c in names):
+            return 'bad-op'
+        cols = {names[j]: [r[j] for r in rows] for j in range(w)}
         d = dictable(dict(cols, i=list(range(len(rows)))))
-        res = d.sort(**{'k%d' % j: orders[j] for j in range(w)})
+        res = d.sort(**{names[j]: orders[j] for j in range(w)})
         return 'ok ' + enc(list(res['i']))
     return 'bad-op'
 
